@@ -23,7 +23,7 @@ STMTS = [
     "cat <<< \"here string $x\"",
     "cat <(e ps 0) > /dev/null",
     # (the consumer signals when it is done: a fixed sleep is not enough on a loaded machine, and the file it writes is its own)
-    "e po 0 > >(cat > po.f; : > po.done); k=0; while [ ! -f po.done ] && [ $k -lt 400 ]; do msleep 10; k=$((k+1)); done",
+    "rm -f po.done; e po 0 > >(cat > po.f; : > po.done); k=0; while [ ! -f po.done ] && [ $k -lt 400 ]; do msleep 10; k=$((k+1)); done",
     "case x in a|b) e c1 0;; x) e c2 0;& y) e c3 1;;& *) e c4 0;; esac",
     "case $1 in p*) e cp 0 ;; *) e cn 1 ;; esac",
     "! e n 1",
@@ -85,6 +85,7 @@ STMTS += ["echo data > in.f; cat < in.f; cat 0< in.f; cat 4< in.f <&4", "echo rw
 def gen_body(rng):
     n = rng.randint(1, 4)
     parts = []
+    form = rng.choice(["brace", "brace", "brace", "subshell", "brace_redir", "brace_redir2", "brace_redir_arg", "brace_herestr_arg"])
     for _ in range(n):
         if rng.random() < 0.75:
             parts.append(rng.choice(STMTS))
@@ -93,10 +94,9 @@ def gen_body(rng):
             for _ in range(50):
                 g = gen_prog.Gen(random.Random(rng.getrandbits(64)), max_depth=3, max_nodes=12, avoid={"ctl_outside", "level_beyond"}, funcs=False)
                 t = g.seq(0, {"in_func": True}, 2)
-                if not c02.in_known_region(t, {}):        # open C02 findings: behaviour differs from bash however the function got defined
+                if not c02.in_known_region(t, {}, body_in_subshell=(form == "subshell")):        # open C02 findings: behaviour differs from bash however the function got defined
                     break
             parts.append(gen_prog.render(t, probes=False))
-    form = rng.choice(["brace", "brace", "brace", "subshell", "brace_redir", "brace_redir2", "brace_redir_arg", "brace_herestr_arg"])
     body = "\n".join(parts)
     if form == "brace":
         return "f() {\n%s\n}" % body
